@@ -415,10 +415,10 @@ class _LoopLog:
             and all(c is seq.elem and getattr(c.addr, "ident", None) == "addr(line_k)" for c in consumed)
         self.obs.append(simple_ob(self.base + ":INV", GP, "INV",
                                   "Inv preserved: the consumer has received exactly the Instruction results of the lines seen so far, in file order",
-                                  ok, ["C08", "C16"], detail=repr(self.log), witness=repr(self.log)[:80]))
+                                  ok, ["C08", "C16", "C09", "C10", "C07", "C11", "C12"], detail=repr(self.log), witness=repr(self.log)[:80]))
 
 
-@scenario("parser:pipeline", GP, ["C08", "C16"], inlined=["parse_file_lines"],
+@scenario("parser:pipeline", GP, ["C08", "C16", "C09", "C10", "C07", "C11", "C12"], inlined=["parse_file_lines"],
           doc="every Instruction result, in order, reaches the consumer exactly once; nothing else does")
 def pipeline():
     ensure()
@@ -429,6 +429,11 @@ def pipeline():
     class Cons:
         def consume_instruction(self, e):
             log.append(("consume", e))
+
+        def __getattr__(self, name):
+            # the parser only hands instructions over: any other use of the consumer (finalize, add_observer, ...) is recorded
+            # and breaks the invariant
+            return lambda *a, **k: log.append(("other:" + name,))
 
     def fn():
         log.clear()
@@ -456,7 +461,7 @@ def pipeline():
     for i, p in enumerate(runr.paths):
         ok = p.kind == "ret" and len(p.value) == 1 and p.value[0][0] == "splice" and p.value[0][1] in ("lines|filter", "lines") and p.value[0][2] == "len"
         obs.append(simple_ob(f"ObjdumpParserManual.parse:p{i}:POST", GP, "POST",
-                             "on return the consumer has received filter(is Instruction, map(parse_line, lines)), in order", ok, ["C08", "C16"],
+                             "on return the consumer has received filter(is Instruction, map(parse_line, lines)), in order -- and nothing else was asked of it", ok, ["C08", "C16", "C09", "C10", "C07", "C11", "C12"],
                              detail=repr(p.value), witness=repr(p.value)[:80]))
     obs.append(simple_ob("ObjdumpParserManual.parse:COVER", GP, "POST", "the inductive step was checked (vacuity guard)", len(inner) > 0, ["C08"]))
     return obs
@@ -520,7 +525,7 @@ class _StubObserver:
         return J.gd.Instruction(addr=inst.addr, mnemonic=inst.mnemonic, operands=[Name("repl-" + self.ident)])
 
 
-@scenario("pipeline:observers", PI, ["C08", "C07", "C10", "C18", "C12", "C16"],
+@scenario("pipeline:observers", PI, ["C08", "C07", "C10", "C18", "C12", "C16", "C11", "C04", "C03", "C01", "C02"],
           doc="an instruction enters the stream iff no installed observer drops it; observers are consulted in order, each at most once, "
               "on the instruction itself; what is encoded is the last observer's answer")
 def observers_pipeline():
@@ -577,25 +582,53 @@ def observers_pipeline():
     from vf.rt import Splice, join as _join
     CI = "jasm.consumer.CompleteConsumer.consume_instruction"
 
-    def fn3():
-        c = J.consumer.CompleteConsumer(regex_rule="x", matched_observer=J.mobs.MatchedObserver(),
-                                        matching_mode=J.gd.MatchingSearchMode.first_find, return_only_address=False)
-        for o in J.match.ObserverBuilder().get_instruction_observers():
-            c.add_observer(o)
-        c._all_instructions_list = [Splice(SymSeq("records", Name("rec_k"), 0))]
-        c.consume_instruction(J.gd.Instruction(addr=Name("a"), mnemonic=Name("m"), operands=[Name("o1")]))
-        pending = c._all_instructions + _join("", c._all_instructions_list)
-        return pending
-    try:
-        run3 = sym_run(fn3)
-        for i, p in enumerate(run3.paths):
-            shown = run3.ctx.table.show(p.value) if p.kind == "ret" else repr(p.value)
-            obs.append(simple_ob(f"consume_instruction:any-prefix:p{i}:POST", CI, "POST",
-                                 "after any number of earlier instructions the consumed text (already folded + pending) is the earlier text followed by "
-                                 "exactly this instruction's record", shown == "‹join('',records)›‹a›::‹m›,‹o1›,|", ["C08", "C10", "C07"],
-                                 detail=shown, witness=shown))
-    except Exception as e:    # noqa
-        obs.append(simple_ob("consume_instruction:any-prefix:RUN", CI, "RUN", "symbolic execution completes", None, ["C08", "C10"], detail=f"unsupported: {e}"))
+    for mode_name in ("first_find", "all_finds"):
+        engine_calls: List[Any] = []
+
+        class _Rx:
+            def __getattr__(self, name):
+                def call(*a, **k):
+                    engine_calls.append(name)
+                    return None if name in ("search", "match", "fullmatch") else []
+                return call
+
+        def fn3(mode_name=mode_name):
+            engine_calls.clear()
+            orig_rx = J.consumer.regex
+            J.consumer.regex = _Rx()
+            try:
+                mo = J.mobs.MatchedObserver()
+                c = J.consumer.CompleteConsumer(regex_rule="x", matched_observer=mo,
+                                                matching_mode=getattr(J.gd.MatchingSearchMode, mode_name), return_only_address=False)
+                for o in J.match.ObserverBuilder().get_instruction_observers():
+                    c.add_observer(o)
+                c._all_instructions_list = [Splice(SymSeq("records", Name("rec_k"), 0))]
+                c.consume_instruction(J.gd.Instruction(addr=Name("a"), mnemonic=Name("m"), operands=[Name("o1")]))
+                pending = c._all_instructions + _join("", c._all_instructions_list)
+                return [pending, list(engine_calls), mo.matched, list(mo.addr_list)]
+            finally:
+                J.consumer.regex = orig_rx
+        try:
+            run3 = sym_run(fn3)
+            for i, p in enumerate(run3.paths):
+                if p.kind != "ret":
+                    obs.append(simple_ob(f"consume_instruction:any-prefix:{mode_name}:p{i}:EXC", CI, "EXC", "no exception", False, ["C08", "C10"],
+                                         detail=repr(p.value), witness=mode_name))
+                    continue
+                pend, ecalls, mflag, alist = p.value
+                shown = run3.ctx.table.show(pend)
+                obs.append(simple_ob(f"consume_instruction:any-prefix:{mode_name}:p{i}:POST", CI, "POST",
+                                     "after any number of earlier instructions the consumed text (already folded + pending) is the earlier text followed by "
+                                     "exactly this instruction's record", shown == "‹join('',records)›‹a›::‹m›,‹o1›,|", ["C08", "C10", "C07"],
+                                     detail=shown, witness=shown))
+                obs.append(simple_ob(f"consume_instruction:any-prefix:{mode_name}:p{i}:FRAME-no-search", CI, "FRAME",
+                                     "consuming an instruction never runs the regex engine and never touches the matched observer: the rule is "
+                                     "matched once, on the WHOLE stream, by finalize (a search on a prefix can see a `$not` / end-of-stream differently)",
+                                     ecalls == [] and mflag is False and alist == [], ["C11", "C12", "C04", "C03", "C01", "C02", "C07"],
+                                     detail=f"engine calls {ecalls}, matched={mflag}, hits={alist}", witness=repr(ecalls)))
+        except Exception as e:    # noqa
+            obs.append(simple_ob(f"consume_instruction:any-prefix:{mode_name}:RUN", CI, "RUN", "symbolic execution completes", None, ["C08", "C10"],
+                                 detail=f"unsupported: {e}"))
     # RemoveEmptyInstructions: drops exactly the byte-continuation pseudo-instruction, returns every other instruction itself
     RE = "jasm.stringify_asm.implementations.observers.RemoveEmptyInstructions.observe_instruction"
     for kind in ("real", "empty"):
@@ -642,7 +675,7 @@ def parse_line_pure():
 
 
 # --------------------------------------------------------------------------- splitter / normaliser on adversarial concrete operand texts
-@scenario("parser:split-concrete", LP + ".LineParser.get_splitted_operands", ["C09", "C10", "C06"],
+@scenario("parser:split-concrete", LP + ".LineParser.get_splitted_operands", ["C09", "C10", "C06", "C08", "C16"],
           doc="concrete operand lists with long register names, deep displacements and segment prefixes: split and normal form agree with the "
               "independent tab/parenthesis-depth decoder (oracle/objdump_model.py)")
 def split_concrete():
@@ -676,6 +709,38 @@ def split_concrete():
                              detail=repr(got), witness=f"{s_} -> {got}",
                              replay={"kind": "call", "target": "jasm.stringify_asm.implementations.gnu_objdump.asm_manual_parser_w_regex:LineParser.get_splitted_operands",
                                      "args": [s_], "expect": want}))
+    # operand texts outside the normal forms of C09 (AVX-512 masks / broadcasts, x87 stack registers, segment prefixes, indirect
+    # targets): whatever text they are given, the fields stay separator-free and their number is the number of top-level operands
+    exotic = ["%zmm2,(%rax,%zmm1,4){%k1}", "(%rdx,%rcx,4){1to16},%zmm1,%zmm2", "%zmm2,(%rdi,%rsi,8){%k1}", "0x40(%rax,%zmm1,4){%k1},%zmm0",
+              "%zmm3{%k2},%zmm1", "(%rdx){1to16},%zmm1,%zmm2", "%st(1),%st", "%st,%st(3)", "%fs:0x0(%rax,%rax,1)", "%gs:(%rcx,%rbx,4),%eax",
+              "%fs:0x10(,%rax,8),%rdx", "*0x8(%rax,%rbx,8)", "*%fs:0x10(,%rax,8)", "%es:(%rdi),%al", "$0x1,(%rax,%rbx,2){%k1}"]
+    for s_ in exotic:
+        line = f"  401000:\t62 f1 7c 48 28 00    \tvop    {s_}"
+        nops = len(OM.split_operands(s_))
+        try:
+            r = J.lp.parse_line(line)
+            ops_ = list(r.operands) if isinstance(r, J.gd.Instruction) else None
+        except Exception as e:  # noqa
+            ops_ = repr(e)
+        ok = isinstance(ops_, list) and len(ops_) == nops and all(isinstance(o_, str) and not any(c_ in o_ for c_ in (",", "|", "::")) for o_ in ops_)
+        obs.append(simple_ob(f"parse_line:exotic:{s_}:CLEAN", LP + ".parse_line", "POST",
+                             f"operand text {s_!r}: {nops} operand field(s), none containing ',' '|' or '::'", ok, ["C10", "C09"],
+                             detail=repr(ops_), witness=f"{s_} -> {ops_}"))
+    # whole lines whose LAST characters are letters / digits / punctuation of every kind (operand-less mnemonics ending in r, n,
+    # t, ...; with and without trailing blanks, comment, annotation): the decoded instruction is the same in every presentation
+    for mn in ("vzeroupper", "sysenter", "fsin", "monitor", "fpatan", "ret", "leave", "nop", "cqto", "hlt", "syscall", "iretq", "int3", "pushf", "rdtscp"):
+        for tail in ("", " ", "   ", "        # comment text", " # r", "\t# n"):
+            for pad in ("  ", "", "    "):
+                line = f"{pad}401008:\tc5 f8 77             \t{mn}{tail}"
+                want = OM.decode_line(line)
+                try:
+                    r = J.lp.parse_line(line)
+                    got = (r.addr, r.mnemonic, list(r.operands)) if isinstance(r, J.gd.Instruction) else repr(r)
+                except Exception as e:  # noqa
+                    got = repr(e)
+                obs.append(simple_ob(f"parse_line:concrete-line:{mn}:{tail!r}:{len(pad)}:POST", LP + ".parse_line", "POST",
+                                     f"{mn!r} with tail {tail!r} decodes to {want}", got == want, ["C08", "C16", "C10"], detail=repr(got),
+                                     witness=f"{line!r} -> {got}"))
     # normal form of every memory text (as the operand of an lea line, through parse_line)
     for m in mems:
         line = f"  401000:\t48 8d 04 00          \tlea    {m},%rsi"
